@@ -120,6 +120,10 @@ def handle : List String → String
             | some h => showM (Gen.C06F.optimize_read_slicers a b c (liftH h))
             | none => "bad-op"
       | _, _, _ => "bad-op"
+  | ["gen", "slicers2segments", a, b, c, d] =>
+      match parseVL? a, parseVL? b, parseV? c, parseV? d with
+      | some a, some b, some c, some d => showM (Gen.C06F.slicers2segments a b c d)
+      | _, _, _, _ => "bad-op"
   | _ => "bad-op"
 
 end Nb.Drv.C06
